@@ -102,11 +102,22 @@ def evaluate(case, scratch):
             leaf_lv = ref.hierarchy[-1]
             # not the only leaf of its top-level node: a whole class
             # without reference cells has no markers against the others
-            top_lv = ref.hierarchy[0]
-            cand = [leaf for leaf in ref.model['leaves'] if len(
-                domains.model_leaves_under(
-                    ref.model, top_lv,
-                    domains.model_ancestors(ref.model, leaf)[top_lv])) >= 2]
+            # (nor of any node above it: its siblings' parent would have
+            # nothing to tell them apart by)
+            if len(ref.hierarchy) >= 2:
+                par_lv = ref.hierarchy[-2]
+                n_top = len(ref.model['nodes'][ref.hierarchy[0]])
+                cand = []
+                for leaf in ref.model['leaves']:
+                    sib = len(domains.model_leaves_under(
+                        ref.model, par_lv,
+                        domains.model_ancestors(ref.model, leaf)[par_lv]))
+                    # the parent keeps markers of its own (two populated
+                    # leaves left), or can fall back on the root's
+                    if sib >= 3 or (sib == 2 and n_top >= 2):
+                        cand.append(leaf)
+            else:
+                cand = list(ref.model['leaves'])
             if cand:
                 empty = cand[(1 + phase) % len(cand)]
                 ref.tree_data[leaf_lv][empty] = []
